@@ -240,6 +240,7 @@ def main(argv=None):
     if cfg.get("exhaustive"):
         coverage["exhaustive"] = bool(counters.get("exhaustive_complete", 0) >= 1)
     if notes:
+        notes.sort(key=lambda n: 0 if "harness error" in str(n) else 1)
         coverage["notes"] = notes[:20]
     replay_path = None
     if unknown:
@@ -288,6 +289,8 @@ def main(argv=None):
     if inconclusive:
         for sh, st, tail in broken[:3]:
             print(f"--- shard {sh} {st} log tail ---\n{tail}")
+        for n in [n for n in notes if "harness error" in str(n)][:3]:
+            print(f"--- {str(n)[:1500]}")
         print(f"INCONCLUSIVE property={prop} reason={'; '.join(inconclusive[:6])}")
         return 2
     return 0
